@@ -328,6 +328,49 @@ def check(ctx: Ctx) -> None:
 
     check_explicit_id(ctx, "C20.e")
 
+    with ctx.obligation("C20.h", "absent-names-none") as ob:
+        # "None for absent names": class-level defaults of XSpec are None (they are what an absent key reads as; __getattr__ covers the rest)
+        xc = repo.cls("XSpec")
+        nd = 0
+        for st_ in xc.node.body:
+            tg = st_.targets[0] if isinstance(st_, ast.Assign) and len(st_.targets) == 1 else (st_.target if isinstance(st_, ast.AnnAssign) else None)
+            val = getattr(st_, "value", None)
+            if isinstance(tg, ast.Name) and not tg.id.startswith("_") and val is not None and not isinstance(val, (ast.Lambda,)):
+                nd += 1
+                ok = isinstance(val, ast.Constant) and val.value is None
+                ob.site(repo.func("xspec.XSpec.__init__"), st_, f"class default {tg.id} = None", ok=ok)
+                if not ok:
+                    ob.violation(repo.func("xspec.XSpec.__init__"), st_, f"XSpec.{tg.id} defaults to `{unparse(val)}`: a name absent from the spec string must read as None "
+                                                                        "(code distinguishes absent from False by identity)", construct=f"default {tg.id}")
+        ob.require(nd >= 3, f"{nd} class-level defaults of XSpec (floor 3)")
+
+    with ctx.obligation("C20.i", "argv-fresh-per-call") as ob:
+        # popen_args extends the list it gets from shell_split_path in place: that list must be fresh per call (no result cache)
+        gio_ = repo.module("gateway_io")
+        nmut = 0
+        for f in repo.scan_funcs():
+            if f.module.name != "gateway_io":
+                continue
+            for n_ in repo.own_nodes(f):
+                if isinstance(n_, ast.Assign) and len(n_.targets) == 1 and isinstance(n_.targets[0], ast.Name) and isinstance(n_.value, (ast.Call, ast.IfExp)):
+                    srcs = [n_.value] if isinstance(n_.value, ast.Call) else [x for x in (n_.value.body, n_.value.orelse) if isinstance(x, ast.Call)]
+                    tg_ = [t for c_ in srcs for t in repo.resolve_call(c_, f)]
+                    nm = n_.targets[0].id
+                    mutated = any(isinstance(c, ast.Call) and isinstance(c.func, ast.Attribute) and isinstance(c.func.value, ast.Name) and c.func.value.id == nm
+                                  and c.func.attr in ("append", "extend", "insert", "pop", "remove", "sort", "reverse", "clear") for c in repo.calls_in(f)) or \
+                        any(isinstance(x, ast.AugAssign) and isinstance(x.target, ast.Name) and x.target.id == nm for x in repo.own_nodes(f))
+                    if not mutated:
+                        continue
+                    for t in tg_:
+                        nmut += 1
+                        cached = [unparse(d) for d in t.node.decorator_list if any(w in unparse(d) for w in ("lru_cache", "cache", "memo"))]
+                        ob.site(f, n_, f"{f.short} mutates the result of {t.short}: fresh object per call", cached=cached)
+                        if cached:
+                            ob.violation(t, t.node, f"{t.short} is cached ({cached[0]}) but {f.short} mutates the list it returns: every spec with the same python= text shares "
+                                                    "one argv, options accumulate across gateways", construct=f"cached {t.short} mutated by {f.short}")
+        if nmut == 0:
+            ob.site(gio_, None, "no function of gateway_io mutates a list it got from another function: nothing to share")
+
     with ctx.obligation("C20.g", "register-rechecks-id") as ob:
         # allocate_id tests the id long before the (slow) bootstrap finishes: two creations claiming the same id both pass it.
         # The last line of defence is the test of the gateway's *id* against the group right before it is appended
